@@ -237,8 +237,8 @@ def toStrDyn (ext : Ext) (v : GoVal) : M Bytes :=
 value yields its dynamic value (`nil` renders as the empty string) -/
 def toStrIface (ext : Ext) (tv : GoVal) : M Bytes :=
   match tv with
-  | .iface (some v) => toStrDyn ext v
-  | .iface none => pure []
+  | .iface _ (some v) => toStrDyn ext v
+  | .iface _ none => pure []
   | v => toStrDyn ext v
 
 /-- `eq`: (eqStr, unit, cusMsg, isEq) -/
